@@ -2,7 +2,7 @@
 import gens
 import evgen
 import statspipe
-from statspipe import term  # noqa: F401
+from statspipe import term, panic_result  # noqa: F401
 
 id = "C12"
 engine = "combinators"
